@@ -159,6 +159,7 @@ func (sll *LinuxSLL2) NextLayerType() gopacket.LayerType {
 
 func (sll *LinuxSLL2) DecodeFromBytes(data []byte, df gopacket.DecodeFeedback) error {
 	if len(data) < 20 {
+		df.SetTruncated()
 		return errors.New("Linux SLL2 packet too small")
 	}
 	sll.ProtocolType = EthernetType(binary.BigEndian.Uint16(data[0:2]))
@@ -167,7 +168,11 @@ func (sll *LinuxSLL2) DecodeFromBytes(data []byte, df gopacket.DecodeFeedback) e
 	sll.PacketType = LinuxSLL2PacketType(data[10])
 	sll.AddrLength = data[11]
 	sll.Addr = data[12:20]
-	sll.Addr = sll.Addr[:sll.AddrLength]
+	// The address field is always 8 bytes long; if the real address is
+	// longer, AddrLength says so but only the first 8 bytes are present.
+	if sll.AddrLength < 8 {
+		sll.Addr = sll.Addr[:sll.AddrLength]
+	}
 	sll.BaseLayer = BaseLayer{data[:20], data[20:]}
 
 	return nil
